@@ -80,6 +80,8 @@ per_count("opt_setnfloat_bool", entry="h_opt_setnfloat_bool", func="cfg_opt_setn
           label=FLAGTXT, props=["C09", "C10", "C18", "C02"], cost=40, **CF)
 per_count("opt_setnstr", entry="h_opt_setnstr", func="cfg_opt_setnstr", harness="harness/store.c", cbmc=unw(6) + OOM, label=FLAGTXT + "; strings <= 2 bytes", replay="replay/store_str.c",
           props=["C09", "C10", "C18", "C16", "C07", "C02"], cost=60, **CF)
+U("setnstr_release", entry="h_setnstr_release", func="cfg_opt_setnstr", harness="harness/store.c", defs={"quick": ["-DNV=2"]}, cbmc=unw(6) + NOOOM + LEAK,
+  label="bounded(a set scalar string option, strings <= 2 bytes; no allocation failure; leak check)", props=["C07", "C09", "C02"], cost=5, **CF)
 U("opt_setcomment", entry="h_opt_setcomment", func="cfg_opt_setcomment", harness="harness/store.c", defs={"quick": ["-DNV=2"]}, cbmc=unw(6) + OOM + LEAK,
   label="bounded(annotation <= 2 bytes)", props=["C15", "C18", "C07", "C16", "C02"], cost=10, **CF)
 per_count("free_value", entry="h_free_value", func="cfg_free_value", harness="harness/store.c", cbmc=unw(6) + LEAK,
@@ -108,12 +110,18 @@ U("setnfloat_byname", entry="h_setnfloat_byname", func="cfg_setnfloat", harness=
   label="proof (loop-free for one value)", props=["C14", "C10", "C02"], cost=10, **CFG)
 
 # ------------------------------------------------------------------ cfg_setopt arms
+per_count("setopt_pcb_fb", counts_quick=(0, 1), counts_thorough=(0, 1, 2), entry="h_setopt_pcb_fb", func="cfg_setopt", harness="harness/setopt_arms.c",
+          cbmc=unw(6) + OOM, label="FLOAT and BOOL arms with a parse callback; " + FLAGTXT, props=["C14", "C10", "C01", "C09", "C18", "C02"], cost=40, **CF)
+U("setopt_simple", entry="h_setopt_simple", func="cfg_setopt", harness="harness/setopt_arms.c", defs={"quick": ["-DNV=2"]}, cbmc=unw(8) + NOOOM + LEAK,
+  label="bounded(simple integer / boolean / string options with concrete texts \"12\", \"1x\", \"yes\", \"off\", \"maybe\", \"ab\"; no allocation failure)", props=["C01", "C09", "C10", "C04", "C06", "C16", "C07", "C02"], cost=10, **CF)
 per_count("setopt_pcb_int", counts_quick=(0, 1, 2), counts_thorough=(0, 1, 2), entry="h_setopt_pcb_int", func="cfg_setopt", harness="harness/setopt_arms.c",
           cbmc=unw(6) + OOM, label="INT arm with parse callback; " + FLAGTXT, props=["C14", "C10", "C01", "C09", "C18", "C02"], cost=20, **CF)
 per_count("setopt_ptr", counts_quick=(0, 1), counts_thorough=(0, 1), entry="h_setopt_ptr", func="cfg_setopt", harness="harness/setopt_arms.c",
           cbmc=unw(6) + OOM, label="PTR arm, scalar; parse / release callbacks present or absent", props=["C07", "C14", "C10", "C09", "C02"], cost=10, **CF)
 per_count("setopt_str", counts_quick=(0, 1, 2), counts_thorough=(0, 1, 2), entry="h_setopt_str", func="cfg_setopt", harness="harness/setopt_arms.c",
           cbmc=unw(6) + OOM, label="STR arm with / without parse callback; strings <= 2 bytes; " + FLAGTXT, props=["C01", "C14", "C07", "C16", "C09", "C10", "C18", "C02"], cost=40, **CF)
+U("setopt_str_release", entry="h_setopt_str_release", func="cfg_setopt", harness="harness/setopt_arms.c", defs={"quick": ["-DNV=2"]}, cbmc=unw(6) + NOOOM + LEAK,
+  label="bounded(a set scalar string option, strings <= 2 bytes; no allocation failure; leak check)", props=["C07", "C09", "C02"], cost=5, **CF)
 U("setopt_args", entry="h_setopt_args", func="cfg_setopt", harness="harness/setopt_arms.c", defs={"quick": ["-DNV=2"]}, cbmc=unw(6) + OOM,
   label="proof (loop-free paths: argument validation)", props=["C09", "C10", "C02"], cost=5, **CF)
 
@@ -292,6 +300,8 @@ U("wrap_setters", entry="h_wrap_setters", func="cfg_setint, cfg_setnint, cfg_set
   props=["C09", "C10", "C11", "C14", "C15", "C19", "C07", "C02"], cost=10, **WRAPC)
 U("wrap_print", entry="h_wrap_print", func="cfg_print, cfg_print_indent, cfg_opt_print, cfg_opt_print_indent", cbmc=unw(6) + NOOOM, remove=WSET, carriers=["carriers/cfg_getopt.c", "carriers/wrapper_carriers.c"],
   label="proof (loop-free wrappers; the printers by contract)", props=["C19", "C05", "C02"], cost=5, **WRAPC)
+U("null_opt", entry="h_null_opt", func="cfg_opt_getnint, cfg_opt_getnfloat, cfg_opt_getnbool, cfg_opt_getnstr, cfg_opt_getnptr, cfg_opt_getnsec, cfg_opt_gettsec, cfg_opt_size, cfg_opt_getcomment, cfg_opt_name, cfg_opt_setnint, cfg_opt_setnfloat, cfg_opt_setnbool, cfg_opt_setnstr, cfg_opt_setcomment, cfg_opt_setmulti, cfg_opt_rmnsec, cfg_opt_rmtsec, cfg_free_value, cfg_setopt, call_function",
+  cbmc=unw(6) + NOOOM, label="proof (loop-free paths: the NULL option an unknown name resolves to)", props=["C09", "C10", "C14", "C02"], cost=5, **WRAPC)
 U("wrap_enum", entry="h_wrap_enum", func="cfg_numopts, cfg_num, cfg_getnopt, cfg_name", cbmc=unw(6) + NOOOM, label="bounded(<= 3 declared options)", props=["C16", "C01", "C02"], cost=5, **WRAPC)
 
 # ------------------------------------------------------------------ S1: contracts enforced by DFCC (frames)
